@@ -180,6 +180,25 @@ def hs (ws : List String) : String :=
     let a := A 1 1
     let f1 := enc (recvKey a.eph 13) 0 (sigPayload 2 (mkDh 12 14))
     "A=" ++ showHs (a.finish rejectOwn (pk (atom 13)) f1 (enc (recvKey a.eph 13) 1 (metaPayload 2 1 1)))
+  | ["stalesig-warm", _scheme, _len] =>
+    -- the victim has VERIFIED (and remembers) a genuine signature of identity B over another message of
+    -- that length; the peer presents B's public key with that signature. A remembered verification of
+    -- another message is not a verification of this session's challenge (`sigcache_hit_sound`).
+    let a := A 1 1
+    let f1 := enc (recvKey a.eph 13) 0 (pair (pk (atom 2)) (sig (atom 2) (pmeta 77 77)))
+    "A=" ++ showHs (a.finish rejectOwn (pk (atom 13)) f1 (enc (recvKey a.eph 13) 1 (metaPayload 2 1 1)))
+  | ["stalesig-warm-session"] =>
+    let a := A 1 1
+    let f1 := enc (recvKey a.eph 13) 0 (sigPayload 2 (mkDh 12 14))
+    "A=" ++ showHs (a.finish rejectOwn (pk (atom 13)) f1 (enc (recvKey a.eph 13) 1 (metaPayload 2 1 1)))
+  | ["keysub-forward-warm"] =>
+    let a := A 1 1; let b := B 1 1
+    let toA1 := enc (recvKey a.eph 13) 0 (sigPayload 2 (mkDh b.eph 14))
+    let toA2 := enc (recvKey a.eph 13) 1 (metaPayload 2 1 1)
+    let toB1 := enc (recvKey b.eph 14) 0 (sigPayload 1 (mkDh a.eph 13))
+    let toB2 := enc (recvKey b.eph 14) 1 (metaPayload 1 1 1)
+    "A=" ++ showHs (a.finish rejectOwn (pk (atom 13)) toA1 toA2) ++
+    " B=" ++ showHs (b.finish rejectOwn (pk (atom 14)) toB1 toB2)
   | ["metaforged"] =>
     -- M authenticates as itself but sends a meta signed by another key
     let a := A 1 1
